@@ -10,7 +10,7 @@ for every op in every configuration, and equality of outcome classes across conf
 import re
 
 from checks import c20
-from sim import loader, recipes, simset
+from sim import loader, recipes, rexcost, simset
 from sim.kernel import EventLog, HarnessError, Violation, digest_of, stream
 
 PROPERTY = "C03"
@@ -193,6 +193,15 @@ def generate(run_seed, tier):
     prog = []
     for _ in range(wl.randint(3, 18)):
         rec, kind = g.build3()
+        for _ in range(6):
+            if c20.ub_of(rec, g.ub) <= c20.UB_LIMIT:
+                break
+            rec, kind = g.build3()
+        else:
+            rec, kind = ["lit", "a"], "lit"
+            g.expect = None
+            g._pending_names = set()
+        g.ub.append(c20.ub_of(rec, g.ub))
         g.kinds.append(kind)
         g.names.append(set(getattr(g, "_pending_names", set())))
         g._pending_names = set()
@@ -259,6 +268,8 @@ def usable(o, texts):
         return ("get_pattern(include_flags=True) raised %s" % type(e).__name__, False)
     if gf != "/%s/gmsu" % g:
         return ("flagged export %r is not '/<pattern>/gmsu' for the exported pattern %r" % (gf, g), False)
+    if rexcost.risky(s) or rexcost.risky(g):
+        return None                                      # workload guard: no matching probe on potentially explosive patterns
     for tid in sorted(texts):
         t = texts[tid]
         a = [(m.span(), m.groups()) for m in c1.finditer(t)]
